@@ -115,6 +115,12 @@ def check_case(ctx, case):
     m = int(ctx.rng.choice([2, 3, 4, 6]))
     width = 180.0 / m
     a0 = float(ctx.rng.choice([0.0, 10.0, -37.0]))
+    if ctx.rng.random() < 0.4:
+        # sectors whose shared edges point exactly East / North: axis-parallel pairs (exact angles 0 and 90 degrees)
+        # lie exactly on an edge - "at most tolerance/2" includes them, so at least one sector has to take them
+        m = int(ctx.rng.choice([2, 4]))
+        width = 180.0 / m
+        a0 = width / 2
     total = np.zeros(len(d0), int)
     boundary = False
     onb = np.zeros(len(d0), bool)
@@ -131,7 +137,14 @@ def check_case(ctx, case):
             Vk = c12.build(case, azimuth=azk, tolerance=width, directional_model='compass')
             total += np.asarray(Vk._direction_mask(), int)
     reg('tiling')
-    if np.any((total == 0) & ~onb):
+    n_ = len(coords)
+    pi_, pj_ = np.triu_indices(n_, k=1)
+    axis_par = ((coords[pi_, 0] == coords[pj_, 0]) ^ (coords[pi_, 1] == coords[pj_, 1]))      # exactly 0 or 90 degrees
+    if len(axis_par) == len(total) and np.any((total == 0) & axis_par):
+        ctx.violation('tiling', '%d sectors of %g deg from %r: %d axis-parallel pairs lying exactly on a shared sector edge '
+                      'are selected by no sector' % (m, width, a0, int(np.sum((total == 0) & axis_par))),
+                      dict(case, sectors=m, a0=a0))
+    elif np.any((total == 0) & ~onb):
         ctx.violation('tiling', '%d sectors of %g deg from %r: %d pairs are selected by no sector' % (
             m, width, a0, int(np.sum(total == 0))), dict(case, sectors=m, a0=a0))
     elif not boundary and int(total.sum()) != int(np.sum(np.isfinite(angk))):
